@@ -240,9 +240,20 @@ def _composite(rng, k, m, n, depth, o):
         if via == "fn":
             # open finding (C01, Product/identity_factor): A @ I drops the Identity, so an Identity *wider* than every
             # other factor does not contribute to the dtype; the clean workload keeps Identity factors narrow
+            # (I.T, I.H and an annotated I are still Identity objects)
             for a in args:
-                if a["k"] == "Identity":
-                    a["dt"] = "f4"
+                b = a
+                while b["k"] == "Annot" or (b["k"] in ("Transpose", "Adjoint") and b.get("via") == "fn"):
+                    b = b["arg"]
+                if b["k"] == "Identity":
+                    b["dt"] = "f4"
+        if o.clean and len(args) == 2:
+            # open finding (C05, Product has_scalar_factor): a Product of a ScalarMul and ONE other factor inherits that factor's
+            # annotations whatever the scalar; with a complex scalar next to a self-adjoint factor (Identity, ...) `.H` then
+            # returns the operator itself.  The clean workload keeps such scalars real.
+            for a in args:
+                if a["k"] == "ScalarMul" and isinstance(a.get("c"), dict):
+                    a["c"] = float(a["c"].get("re") or 2.0)
         return {"k": "Product", "via": via, "args": args}
     if k == "Sum":
         nf = int(rng.integers(2, 4))
